@@ -150,7 +150,8 @@ def run(tier):
     for job, r in zip(jobs[:-1], res[:-1]):
         d = r["res"]
         size = d["size"]
-        chk.count(("dir", size, d["tested"]), nontrivial=True, n=d["tested"])
+        for n in range(d["tested"]):
+            chk.count(("dir", len(per_dir), n), nontrivial=True)
         per_dir.append({"cache_file_size": size, "prefix_lengths_tested": d["range"], "requests": d["tested"],
                         "failures": d["prefix_fail_counts"], "full_length_garbage": d["others"],
                         "file_not_restored": d["not_restored"][:5], "secs": d["secs"], "pickle": d["pickle"]})
@@ -187,7 +188,7 @@ def run(tier):
                            "lengths": d["not_restored"][:20], "job": dict(job, range=[d["not_restored"][0][0]] * 2)},
                           tag="dircache-not-rewritten")
     zres = res[-1]["res"]
-    chk.count(("zip", zres["tested"]), nontrivial=False, n=zres["tested"])
+    chk.count(("zip", zres["tested"]), nontrivial=False, n=zres["tested"])   # never re-read: trivial by construction
     if zres["nfails"]:
         found = True
         chk.violation({"what": "ZIP index cache file cut off: listing/member differs from the undamaged answer",
